@@ -33,7 +33,7 @@ func init() {
 	})
 	register(&Prop{
 		ID:    "C10",
-		Rules: []func(*core.Ctx){RGuard, RPanic, RFatal, RNilMatch, RCatTable, rDirFoldOnly, RIdxSib, RGrowCmp, REmptyIter, RRuneWidth},
+		Rules: []func(*core.Ctx){RGuard, RPanic, RFatal, RNilMatch, RCatTable, rDirFoldOnly, RIdxSib, RGrowCmp, REmptyIter, RRuneWidth, RMakeArg},
 		Explanation: "R-GUARD: abstract interpretation (lower bound on charsRight(), difference bounds for mirror variables, saved positions) over go/cfg of every function of package syntax that uses the parser's position primitives: each pattern read is proven to be preceded on every path by a sufficient length test; who-may-index p.pattern / who-may-write currentPos; _category index bounds. " +
 			"Decides the parser part of 'no panic on any pattern'. Not decided: index arithmetic outside the parser, non-termination.",
 	})
